@@ -363,7 +363,7 @@ REPLAY_BINS = {
     "C15": [("c_sched", [], ["C15"])],
     "C16": [("c16_edges", [])],
     "C17": [("c17_info", ["--features", "graph_info"])],
-    "C20": [("c_sched", [], ["C20"])],
+    "C20": [("c_sched", [], ["C20"]), ("c_run", [], ["C20"])],
 }
 
 
